@@ -235,7 +235,10 @@ impl ServerMetaContextOutput {
         let html_attrs = self.html.try_iter().collect::<String>();
         let body_attrs = self.body.try_iter().collect::<String>();
 
+        // where the content of the `<head>` ends: the `<body` tag is looked for after it
+        let head_end;
         let mut modified_chunk = if title_len == 0 && meta_buf.is_empty() {
+            head_end = first_chunk.find("</head>").unwrap_or(0);
             first_chunk
         } else {
             let mut buf = String::with_capacity(
@@ -261,23 +264,26 @@ impl ServerMetaContextOutput {
             }
             buf.push_str(before_head_close);
             buf.push_str(&meta_buf);
+            head_end = buf.len();
             buf.push_str(after_head);
             buf
         };
+
+        // (the body first: inserting into the `<html` tag moves everything behind it)
+        if !body_attrs.is_empty() {
+            // `<body` in the text of a `<Script>` or `<Style>` in the head is not the body tag
+            if let Some(index) = modified_chunk[head_end..].find("<body") {
+                // Calculate the position where the new string should be inserted
+                let insert_pos = head_end + index + "<body".len();
+                modified_chunk.insert_str(insert_pos, &body_attrs);
+            }
+        }
 
         if !html_attrs.is_empty() {
             if let Some(index) = modified_chunk.find("<html") {
                 // Calculate the position where the new string should be inserted
                 let insert_pos = index + "<html".len();
                 modified_chunk.insert_str(insert_pos, &html_attrs);
-            }
-        }
-
-        if !body_attrs.is_empty() {
-            if let Some(index) = modified_chunk.find("<body") {
-                // Calculate the position where the new string should be inserted
-                let insert_pos = index + "<body".len();
-                modified_chunk.insert_str(insert_pos, &body_attrs);
             }
         }
 
